@@ -40,8 +40,22 @@ type StructDataProvider struct {
 	tag   *string
 }
 
+// fieldByName looks a field up like reflect.Value.FieldByName, but a field promoted from a nil embedded
+// pointer is reported as missing instead of panicking
+func (s *StructDataProvider) fieldByName(key string) reflect.Value {
+	sf, ok := s.value.Type().FieldByName(key)
+	if !ok {
+		return reflect.Value{}
+	}
+	field, err := s.value.FieldByIndexErr(sf.Index)
+	if err != nil {
+		return reflect.Value{}
+	}
+	return field
+}
+
 func (s *StructDataProvider) Get(key string) any {
-	field := s.value.FieldByName(key)
+	field := s.fieldByName(key)
 	// unexported fields cannot be read: treat them like missing ones
 	if !field.IsValid() || !field.CanInterface() {
 		return nil
@@ -55,7 +69,7 @@ func (s *StructDataProvider) GetByField(field reflect.StructField, fallback stri
 }
 
 func (s *StructDataProvider) GetNestedProvider(key string) DataProvider {
-	field := s.value.FieldByName(key)
+	field := s.fieldByName(key)
 	if !field.IsValid() || !field.CanInterface() {
 		return nil
 	}
